@@ -853,8 +853,9 @@ def intsTarget : List Nat → List RPart → List Nat
 
 theorem ints_resolve (s : List Nat) (parts : List RPart) (h : intsInRange s parts = true) :
     InBounds s (intsTarget s parts) ∧
-    Sparse.rewriteNeg s parts = .ok ((intsTarget s parts).map fun x => RPart.int x) ∧
-    Sparse.regionIdx s ((intsTarget s parts).map fun x => RPart.int x) = .ok ((intsTarget s parts).map fun x => [x]) ∧
+    Sparse.rewriteNeg s parts = .ok ((intsTarget s parts).map fun (x : Nat) => RPart.int (x : Int)) ∧
+    Sparse.regionIdx s ((intsTarget s parts).map fun (x : Nat) => RPart.int (x : Int)) =
+      .ok ((intsTarget s parts).map fun x => [x]) ∧
     MArr.regionParts false s parts =
       .ok (List.zipWith (fun e x => (e, [x], false)) s (intsTarget s parts)) := by
   induction parts generalizing s with
@@ -875,8 +876,7 @@ theorem ints_resolve (s : List Nat) (parts : List RPart) (h : intsInRange s part
         obtain ⟨i1, i2, i3, i4⟩ := ih es h3
         simp only [intsTarget, List.map_cons]
         by_cases hneg : i < 0
-        · have hx : (0 : Int) ≤ (e : Int) + i := by omega
-          have hx' : ¬ (0 : Int) ≤ i := by omega
+        · have hx' : ¬ (0 : Int) ≤ i := by omega
           have hnn : 0 ≤ i + (e : Int) := by omega
           have hcast : (((i + (e : Int)).toNat : Nat) : Int) = (e : Int) + i := by omega
           refine ⟨?_, ?_, ?_, ?_⟩
@@ -884,7 +884,8 @@ theorem ints_resolve (s : List Nat) (parts : List RPart) (h : intsInRange s part
           · simp only [Sparse.rewriteNeg, Sparse.rewriteNegPart, hneg, if_true, i2, bind, Except.bind, hcast]
           · simp only [hneg, if_true, Sparse.regionIdx, Sparse.partIdx, i3, bind, Except.bind]
             have : (0 : Int) ≤ ((i + (e : Int)).toNat : Int) := by omega
-            simp [this]
+            rw [if_pos this]
+            simp only [Int.toNat_natCast]
           · simp only [MArr.regionParts, MArr.regionPart, hx', if_false, hnn, if_true, hneg, i4, bind, Except.bind,
               pure, Except.pure, List.zipWith_cons_cons]
         · have hx : (0 : Int) ≤ i := by omega
@@ -895,10 +896,35 @@ theorem ints_resolve (s : List Nat) (parts : List RPart) (h : intsInRange s part
           · simp only [Sparse.rewriteNeg, Sparse.rewriteNegPart, hneg, if_false, i2, bind, Except.bind, hcast]
           · simp only [hneg, if_false, Sparse.regionIdx, Sparse.partIdx, i3, bind, Except.bind]
             have : (0 : Int) ≤ ((i.toNat : Nat) : Int) := by omega
-            simp [this]
+            rw [if_pos this]
+            simp only [Int.toNat_natCast]
           · have hmax : max e (i.toNat + 1) = e := by omega
             simp only [MArr.regionParts, MArr.regionPart, hx, if_true, hlt, true_or, hneg, if_false, i4, bind,
               Except.bind, pure, Except.pure, List.zipWith_cons_cons, hmax]
+
+theorem zipWith_idx (s t : List Nat) (hl : t.length = s.length) :
+    (List.zipWith (fun e x => ((e, [x], false) : Nat × List Nat × Bool)) s t).map (·.2.1) = t.map fun x => [x] := by
+  induction s generalizing t with
+  | nil => cases t with
+    | nil => rfl
+    | cons a t => simp at hl
+  | cons e s ih => cases t with
+    | nil => simp at hl
+    | cons a t => simp [ih t (by simpa using hl)]
+
+theorem zipWith_kept (s t : List Nat) :
+    MArr.keptShape (List.zipWith (fun e x => ((e, [x], false) : Nat × List Nat × Bool)) s t) = [] := by
+  unfold MArr.keptShape
+  induction s generalizing t with
+  | nil => rfl
+  | cons e s ih => cases t with
+    | nil => rfl
+    | cons a t => simpa using ih t
+
+theorem outerF_singletons (t : List Nat) : outerF (t.map fun x => [x]) = [t] := by
+  induction t with
+  | nil => rfl
+  | cons a t ih => simp [outerF, ih]
 
 theorem inRegionB_singletons (t r : List Nat) : Sparse.inRegionB (t.map fun x => [x]) r = (r == t) := by
   induction t generalizing r with
@@ -981,23 +1007,53 @@ theorem Sparse.getItem_ints {S : Sparse α} {m : MArr α} (h : SRel S m) (parts 
   -- specification side
   have hemp : parts.isEmpty = false := by cases parts <;> simp_all
   have hspec : m.read (.region parts) = .ok (.scalar (m.get t)) := by
-    simp only [MArr.read, hemp, Bool.false_eq_true, ↓reduceIte, ← h.shape, hrp, bind, Except.bind]
-    have hk : MArr.keptShape (List.zipWith (fun e x => (e, [x], false)) S.shape t) = [] := by
-      unfold MArr.keptShape
-      rw [List.filter_eq_nil_iff]
-      intro r hr
-      obtain ⟨k, _, rfl⟩ := List.mem_iff_getElem.1 hr
-      simp
-    have ho : outerF ((List.zipWith (fun e x => (e, [x], false)) S.shape t).map (·.2.1)) = [t] := by
-      have : (List.zipWith (fun e x => ((e, [x], false) : Nat × List Nat × Bool)) S.shape t).map (·.2.1) =
-          t.map fun x => [x] := by
-        clear hk hrp hidx hrw hb hspec
-        induction t generalizing S with
-        | nil => simp
-        | cons a t ih' => sorry
-      sorry
-    sorry
-  sorry
+    simp only [MArr.read, hemp, Bool.false_eq_true, ↓reduceIte, ← h.shape, hrp, bind, Except.bind,
+      zipWith_kept, zipWith_idx S.shape t htl, outerF_singletons]
+    rfl
+  rw [hspec]
+  -- model side
+  simp only [Sparse.getItem, hpl, ne_eq, not_true_eq_false, ↓reduceIte, hrw, hidx, bind, Except.bind]
+  unfold Sparse.regionRead
+  have hparts : ∀ d, ((t.map fun (x : Nat) => RPart.int (x : Int)).getD d (.int 0)).isInt = true := by
+    intro d
+    simp only [List.getD_eq_getElem?_getD, List.getElem?_map]
+    cases t[d]? <;> rfl
+  have hlist : (List.range S.shape.length).any (fun d =>
+      match (t.map fun (x : Nat) => RPart.int (x : Int)).getD d (.int 0) with
+      | .list is => is.any (· ≥ S.shape.getD d 0)
+      | _ => false) = false := by
+    rw [List.any_eq_false]
+    intro d _
+    simp only [List.getD_eq_getElem?_getD, List.getElem?_map]
+    cases t[d]? <;> simp
+  have hkp : ((List.range S.shape.length).filter fun d =>
+      !((t.map fun (x : Nat) => RPart.int (x : Int)).getD d (.int 0)).isInt) = [] := by
+    rw [List.filter_eq_nil_iff]
+    intro d _
+    simp [hparts d]
+  simp only [hlist, Bool.false_eq_true, and_false, ↓reduceIte, hkp, List.isEmpty_nil]
+  have hloc : (if S.subs.isEmpty then [] else S.subdims (t.map fun x => [x])) =
+      (List.range S.subs.length).filter fun k => S.subs.getD k [] == t := by
+    split
+    · next he =>
+      have : S.subs = [] := by simpa using he
+      rw [this]; rfl
+    · unfold Sparse.subdims
+      apply List.filter_congr
+      intro k _
+      exact inRegionB_singletons t _
+  have hvals : (S.takeAt (if S.subs.isEmpty then [] else S.subdims (t.map fun x => [x]))).vals =
+      if t ∈ S.subs then [S.vals.getD (S.subs.idxOf t) 0] else [] := by
+    rw [hloc]
+    exact filter_lookup S.subs S.vals h.wf.nodup t
+  rw [hvals]
+  have hget : m.get t = if t ∈ S.subs then S.vals.getD (S.subs.idxOf t) 0 else 0 := by
+    rw [← h.cell t]
+    exact kvSum_zip_eq S.subs S.vals h.wf.nodup h.wf.len t
+  rw [hget]
+  by_cases hm : t ∈ S.subs
+  · simp [hm, Except.map, SpReadOut.toReadOut]
+  · simp [hm, Except.map, SpReadOut.toReadOut]
 
 end rd
 
